@@ -8,6 +8,11 @@ Tie 1 (tool level, trace + exact): props/C11/h_scan.c is gensquashfs itself with
     (lstat) with every directory listed in the logged order and must print the same entry stream, the same
     tree (order of children, attributes, link counts, inode numbers, hard link targets), the same inode
     array and the same file list.
+Tie 1b (image level, exact for single-block tables): the image that very run of h_scan wrote is decoded with
+    vlib/sqfsimg.py; the composed model ImgScan.pp_tables (scan_dir -> post_process -> ImgPost.to_img ->
+    Img.serialize_fstree, extracted in ExtractC11Img.v, metadata stored uncompressed) must predict the
+    uncompressed inode table stream, the directory table stream, the id table and the root reference byte for
+    byte (file inodes: location fields taken from the image, they belong to the data path).
 Tie 2 (component level, exact): props/C11/h_fstree.c drives fstree_add_generic / fstree_post_process with
     explicit entry sequences in arbitrary orders; the model (fs_add + post_process) must print the same dump.
 Search oracle: the property itself on the implementation — sha256 of the image the real gensquashfs writes
@@ -26,6 +31,7 @@ from concurrent.futures import ThreadPoolExecutor
 
 from vlib import build as B
 from vlib import core
+from vlib import sqfsimg
 
 HERE = os.path.dirname(os.path.abspath(__file__))
 LEVEL = "proof"
@@ -70,7 +76,9 @@ def build_tools():
         open(shim + ".stamp", "w").write(key)
     drv = core.build_model_driver("C11", "ExtractC11.v", os.path.join(HERE, "driver.ml"),
                                   stubs_c=os.path.join(HERE, "stubs.c"))
-    return dict(info=info, h_scan=h_scan, h_fstree=h_fstree, shim=shim, drv=drv,
+    drv_img = core.build_model_driver("C11img", "ExtractC11Img.v", os.path.join(HERE, "driver_img.ml"),
+                                      stubs_c=os.path.join(HERE, "stubs.c"))
+    return dict(info=info, h_scan=h_scan, h_fstree=h_fstree, shim=shim, drv=drv, drv_img=drv_img,
                 gensquashfs=info["tools"]["gensquashfs"], rdsquashfs=info["tools"]["rdsquashfs"])
 
 
@@ -84,7 +92,7 @@ def private_tools(ctx):
             d = os.path.join(ctx.scratch, "bin%d" % attempt)
             os.makedirs(d, exist_ok=True)
             out = dict(info=tools["info"])
-            for k in ("h_scan", "h_fstree", "shim", "drv", "gensquashfs", "rdsquashfs"):
+            for k in ("h_scan", "h_fstree", "shim", "drv", "drv_img", "gensquashfs", "rdsquashfs"):
                 dst = os.path.join(d, k + (".so" if k == "shim" else ""))
                 shutil.copy2(tools[k], dst)
                 out[k] = dst
@@ -555,7 +563,102 @@ def tie_scan_one(tools, case, mode, workdir):
         res.update(ok=False, kind="unsorted" if m0 == impl else "mismatch", first_diff=diff,
                    detail="line %d: impl=%r model=%r" % (diff, impl[diff] if diff < len(impl) else None,
                                                          mlines[diff] if diff < len(mlines) else None))
+        return res
+    if complete and os.path.exists(img):
+        ti = tie_image_one(tools, text, img)
+        res["image"] = dict(exact=ti["exact"], bytes=ti.get("bytes", 0))
+        if not ti["ok"]:
+            res.update(ok=False, kind="image", detail=ti["detail"])
     return res
+
+
+# --------------------------------------------------------------------------------------------
+# tie 1b: the tables of the image h_scan wrote vs the composed model (ImgScan.pp_tables)
+# --------------------------------------------------------------------------------------------
+
+def _meta_blocks(ms):
+    """uncompressed payloads of all metadata blocks of an area"""
+    out, off, size = [], 0, ms.limit - ms.base
+    while off < size:
+        d, nxt = ms.block(off)
+        out.append(d)
+        off = nxt
+    return out
+
+
+def _model_stream(hexs_):
+    """payload of a table the model wrote with the storing compressor: [le16 (0x8000 | n), n bytes]*"""
+    b = b"" if hexs_ == "-" else bytes.fromhex(hexs_)
+    out, i, nblk = [], 0, 0
+    while i < len(b):
+        h = b[i] | (b[i + 1] << 8)
+        n = h & 0x7FFF
+        if not h & 0x8000:
+            raise ValueError("model wrote a compressed block")
+        out.append(b[i + 2:i + 2 + n])
+        i += 2 + n
+        nblk += 1
+    return b"".join(out), nblk
+
+
+def tie_image_one(tools, text, img_path):
+    """Returns dict(ok, detail, exact): exact = the tables fit one metadata block each, so block positions (which
+    depend on the compressor) are all 0 and the streams must agree byte for byte."""
+    im = sqfsimg.Image(open(img_path, "rb").read())
+    try:
+        iblk = _meta_blocks(im.inodes)
+        # the directory table ends where the first metadata block of a lookup table (fragment, export, id, xattr) begins
+        cands = [l for (_, locs, _) in getattr(im, "table_blocks", []) for l in locs]
+        if getattr(im, "xattr_kv_start", None) is not None:
+            cands.append(im.xattr_kv_start)
+        cands = [c for c in cands if c >= im.super["dir_table_start"]]
+        dend = min(cands) if cands else im.dirs.limit
+        dblk = _meta_blocks(sqfsimg.MetaStream(im, im.super["dir_table_start"], dend))
+    except sqfsimg.ParseError as e:
+        return dict(ok=False, exact=False, detail="real image does not parse: %s" % e)
+    if len(iblk) != 1 or len(dblk) > 1:
+        return dict(ok=True, exact=False, detail="multi-block tables: positions depend on the compressor")
+    nodes = im.walk()
+    fb = []
+    for path, n in nodes.items():
+        if n.type == sqfsimg.T_FILE:
+            ext = 1 if (n.sparse or n.blocks_start > 0xFFFFFFFF or n.size > 0xFFFFFFFF) else 0
+            bl = list(n.block_sizes or [])
+            fb.append("FB %s %d %d %d %d %d %d %d %s" % (hexs(path) if path else "-", ext, n.blocks_start, n.size, n.sparse or 0,
+                                                       n.frag_idx, n.frag_off, len(bl), " ".join(str(x) for x in bl)))
+    assert text.endswith("POST\nEND\n")
+    t2 = text[:-len("END\n")] + "".join(l.rstrip() + "\n" for l in fb) + "IMG\nEND\n"
+    r = subprocess.run([tools["drv_img"]], input=t2.encode(), stdout=subprocess.PIPE, stderr=subprocess.PIPE)
+    if r.returncode != 0:
+        raise RuntimeError("image model driver failed: " + r.stderr.decode()[-500:])
+    got = {}
+    for l in r.stdout.decode().split("\n"):
+        if l[:2] in ("T ", "D ", "Q ", "Y ") or l.startswith("TX"):
+            got[l.split(" ")[0]] = l[2:].strip() if not l.startswith("TX") else l
+        elif l in ("Q", "Q "):
+            got["Q"] = ""
+    if "TX" in got or not all(k in got for k in ("T", "D", "Q", "Y")):
+        return dict(ok=False, exact=True, detail="model produced no tables: %r" % (got.get("TX"),))
+    try:
+        mi, _ = _model_stream(got["T"])
+        md, _ = _model_stream(got["D"])
+    except ValueError as e:
+        return dict(ok=False, exact=True, detail=str(e))
+    ri, rd = b"".join(iblk), b"".join(dblk)
+    mids = [int(x) for x in got["Q"].split()]
+    if mi != ri:
+        k = next((i for i, (a, b) in enumerate(zip(mi, ri)) if a != b), min(len(mi), len(ri)))
+        return dict(ok=False, exact=True, detail="inode table differs at byte %d (model %d bytes, image %d bytes): model %s image %s"
+                    % (k, len(mi), len(ri), mi[max(0, k - 8):k + 8].hex(), ri[max(0, k - 8):k + 8].hex()))
+    if md != rd:
+        k = next((i for i, (a, b) in enumerate(zip(md, rd)) if a != b), min(len(md), len(rd)))
+        return dict(ok=False, exact=True, detail="directory table differs at byte %d (model %d bytes, image %d bytes): model %s image %s"
+                    % (k, len(md), len(rd), md[max(0, k - 8):k + 8].hex(), rd[max(0, k - 8):k + 8].hex()))
+    if mids != list(im.ids):
+        return dict(ok=False, exact=True, detail="id table: model %r image %r" % (mids, list(im.ids)))
+    if int(got["Y"]) != im.super["root_ref"]:
+        return dict(ok=False, exact=True, detail="root reference: model %s image %d" % (got["Y"], im.super["root_ref"]))
+    return dict(ok=True, exact=True, detail="", bytes=len(ri) + len(rd))
 
 
 # --------------------------------------------------------------------------------------------
@@ -873,6 +976,11 @@ def report_case(ctx, r, stats):
     for t in r["ties"]:
         stats["tie_runs"] += 1
         stats["entries"] += t.get("entries", 0)
+        if t.get("image"):
+            stats["image_runs"] = stats.get("image_runs", 0) + 1
+            if t["image"]["exact"]:
+                stats["image_exact"] = stats.get("image_exact", 0) + 1
+                stats["image_bytes"] = stats.get("image_bytes", 0) + t["image"]["bytes"]
         if t.get("failed_run"):
             stats["failed_runs"] += 1
         if t["ok"]:
@@ -884,7 +992,9 @@ def report_case(ctx, r, stats):
         if sig in stats["reported"]:
             continue
         stats["reported"].add(sig)
-        ctx.violation(sig, "correspondence scan_dir/post_process (model) vs gensquashfs (h_scan) broken on case %s, readdir order %s: %s "
+        ctx.violation(sig, ("correspondence ImgScan.pp_tables (scan_dir -> post_process -> to_img -> serialize_fstree) vs the image "
+                            "gensquashfs (h_scan) wrote" if t["kind"] == "image" else
+                            "correspondence scan_dir/post_process (model) vs gensquashfs (h_scan)") + " broken on case %s, readdir order %s: %s "
                       "(images identical under %d readdir orders)" % (case.cid, t["mode"], t.get("detail"), len(r["oracle"] or {})),
                       dict(case=case.to_json(), modes=[t["mode"]], impl=t.get("impl"), model=t.get("model"),
                            correspondence="props/C11 tie 1: entry stream + fstree dump of h_scan = scan_dir + post_process (exact)"),
@@ -895,7 +1005,8 @@ def run(ctx):
     tools = private_tools(ctx)
     ctx.trusted += [
         "props/C11/shim_readdir.c (LD_PRELOAD: permutes and logs what readdir returns), props/C11/h_scan.c + h_dump.h "
-        "(gensquashfs with a logging iterator wrapper and an fstree dump), props/C11/h_fstree.c, props/C11/driver.ml + stubs.c",
+        "(gensquashfs with a logging iterator wrapper and an fstree dump), props/C11/h_fstree.c, props/C11/driver.ml + stubs.c, "
+        "props/C11/driver_img.ml; vlib/sqfsimg.py (decodes the real image for tie 1b)",
         "python glue of props/C11/check.py: lstat of the generated tree -> model input; option/pack-file parsing of "
         "gensquashfs is not modelled (the iterator configuration is taken from what the harness logged)",
         "libc fnmatch is an oracle of the model (Section variable, no contract), bound to the same libc function in the driver",
@@ -904,8 +1015,10 @@ def run(ctx):
         "names in one host directory are pairwise distinct, non-empty and contain neither '/' nor NUL (POSIX)",
         "readdir returns every entry of a directory exactly once (any order); the tree does not change during the scan",
         "I/O errors and allocation failures are not modelled; link counts / inode counts are unbounded in the model",
-        "image = function of (fstree after post_process, file contents, options) is C02/C01's statement; C11's theorems end at the "
-        "fstree, inode numbers and file list, the byte level is covered by the sha256 search oracle only",
+        "image = function of (fstree after post_process, file contents, options): Properties_C11 (session 3) composes the layer "
+        "models (ImgPost.to_img, Img.serialize_fstree, C02.run, Image.write_image) and proves the tables and the image bytes equal "
+        "for every two enumeration orders; host file contents, xattrs and compressor options are parameters shared by both runs; "
+        "the tie compares the metadata tables (1b), the data area and the super block are covered by the sha256 search oracle",
     ]
     stats = dict(tie_runs=0, tie_bad=0, oracle_bad=0, entries=0, failed_runs=0, reported=set())
     rnd = random.Random(ctx.seed * 31 + 5)
@@ -948,6 +1061,9 @@ def run(ctx):
     ctx.log("tool level: %d cases (%d with multiply-linked files, %d of them with hard link detection on), %d tie runs "
             "(%d broken, %d of failing packer runs), %d entries streamed, oracle: %d cases with order-dependent images"
             % (len(cases), n_links, n_links_hl, stats["tie_runs"], stats["tie_bad"], stats["failed_runs"], stats["entries"], stats["oracle_bad"]))
+    ctx.log("image level (tie 1b): %d images decoded, %d compared byte for byte (%d table bytes), %d with multi-block tables skipped"
+            % (stats.get("image_runs", 0), stats.get("image_exact", 0), stats.get("image_bytes", 0),
+               stats.get("image_runs", 0) - stats.get("image_exact", 0)))
 
     cstats = run_component(ctx, tools, 5000 if ctx.tier == "quick" else 100000)
     ctx.log("component level: %s" % cstats)
@@ -970,6 +1086,8 @@ def run(ctx):
                                         pack_dir=sum(1 for c in cases if c.kind == "dir"),
                                         pack_file=sum(1 for c in cases if c.kind == "file"),
                                         failing_packer_runs=stats["failed_runs"], entries_streamed=stats["entries"],
+                                        image_tables_compared_exactly=stats.get("image_exact", 0),
+                                        image_table_bytes=stats.get("image_bytes", 0),
                                         component=cstats)
     ctx.coverage["search_oracle"] = dict(images_hashed=len(cases) * k, order_dependent_cases=stats["oracle_bad"])
     smp = []
